@@ -1139,8 +1139,8 @@ namespace
                     m_out.push_back(*res);
                 }
                 else
-                {
-                    runtime.__logmsg(logmessage::runtime::CallstackFoundNoValue(frame.diag_info_from_position(), "apply"s));
+                { // The code yielded nothing (empty, or its last statement has no value): the element is nil
+                    m_out.push_back({});
                 }
 
                 if (m_size != m_array->size())
